@@ -322,11 +322,21 @@ func init() {
 	// logRoundtrip: format every entry of every group with Entry.Format, concatenate the group,
 	// decode the concatenation.  Returns per group the formatted entries and the decoded list.
 	register("logRoundtrip", func(raw json.RawMessage) (interface{}, error) {
-		var a struct{ Groups [][]jEntry }
+		var a struct {
+			Groups [][]jEntry
+			// Zone != 0: the process pretends to run in the fixed zone UTC+Zone seconds for this call
+			// (the file format is defined in UTC whatever the zone of the process)
+			Zone int
+		}
 		if err := json.Unmarshal(raw, &a); err != nil {
 			return nil, err
 		}
 		return withTimeout(120*time.Second, func() (interface{}, error) {
+			if a.Zone != 0 {
+				old := time.Local
+				time.Local = time.FixedZone("verif", a.Zone)
+				defer func() { time.Local = old }()
+			}
 			type one struct {
 				Fmt     []string
 				BD      [][]int64
